@@ -410,7 +410,13 @@ func runExec(args []string) {
 				out.Flush()
 				continue
 			}
-			fmt.Fprintf(out, "%s => %d %d %s %s %s %s%s%s\n", line, r.t0, r.t1, r.reply, dumpKeys(mgr, f[1]), floatAnn(argv), r.rf, evField(r), kpField(mgr, argv))
+			// the second clock reading is taken AFTER the dump: a deadline timer that fires between the command and the dump (the dump of a
+			// thousand keys takes a while on a loaded machine) removes a key the model, judging at the earlier reading, still expects
+			dump := dumpKeys(mgr, f[1])
+			if t2 := time.Now().Unix(); t2 > r.t1 {
+				r.t1 = t2
+			}
+			fmt.Fprintf(out, "%s => %d %d %s %s %s %s%s%s\n", line, r.t0, r.t1, r.reply, dump, floatAnn(argv), r.rf, evField(r), kpField(mgr, argv))
 		case "G", "L", "LB":
 			// keyspace snapshot (C08):
 			//   G            => <t0> <t1> <hex of MemDb.GetSnapshot()>
@@ -463,7 +469,11 @@ func snapshotLine(mgr *server.Manager, f []string) (res string) {
 			}
 		}
 		mgr.CurrentDB = fresh
-		return fmt.Sprintf("%d %d %s %s %s", t0, t1, hx(snap), verdict, dumpKeys(mgr, "*"))
+		dump := dumpKeys(mgr, "*")
+		if t2 := time.Now().Unix(); t2 > t1 {
+			t1 = t2 // see the X line: the reading the dump is judged at is taken after the dump
+		}
+		return fmt.Sprintf("%d %d %s %s %s", t0, t1, hx(snap), verdict, dump)
 	default:
 		var data []byte
 		if len(f) > 1 {
@@ -473,7 +483,8 @@ func snapshotLine(mgr *server.Manager, f []string) (res string) {
 		if err := mgr.CurrentDB.LoadSnapshot(data); err != nil {
 			verdict = "err"
 		}
+		dump := dumpKeys(mgr, "*")
 		t1 := time.Now().Unix()
-		return fmt.Sprintf("%d %d %s %s", t0, t1, verdict, dumpKeys(mgr, "*"))
+		return fmt.Sprintf("%d %d %s %s", t0, t1, verdict, dump)
 	}
 }
